@@ -635,21 +635,41 @@ impl SubCheck for C10Sub {
         let a = c10_with_steps(c, &a, (c.part_a.iter().filter(|x| x.is_none()).count()).min(3));
         let b = c10_build(c, &c.part_b);
         let mut infos = Vec::new();
+        // raw observation of each plan: (id, handler time, model) of every handler begun,
+        // and the time after the last command - independent of RefSim's verdict
+        let mut raw: Vec<(Vec<(u64, i64, u16)>, i64)> = Vec::new();
+        let mut foreign: Option<Verdict> = None;
         for sc in [&a, &b] {
             // a step() may jump beyond the horizon: only legal plans are compared
             let obs = run_scase(sc);
+            let mut f: Vec<(u64, i64, u16)> = Vec::new();
+            for co in &obs.cmds {
+                for r in &co.recs {
+                    if let Rec::Begin { id, time, model, .. } = r {
+                        f.push((*id, *time, *model));
+                    }
+                }
+            }
+            f.sort();
+            raw.push((f, obs.cmds.last().map(|c| c.time_after).unwrap_or(c.start)));
             match check_scase(sc, &obs) {
                 Ok(i) => infos.push(i),
                 Err(v) => {
                     // A plan using step() may overshoot the horizon; then the final
                     // step_until is rejected with InvalidDeadline, which the reference
                     // model predicts as well (so this is a genuine mismatch).
-                    return Verdict::Fail {
+                    let vd = Verdict::Fail {
                         signature: format!("C10/{}", v.clause),
                         clause: v.clause,
                         detail: v.detail,
                         props: v.props,
                     };
+                    if v.props.contains(&"C10") {
+                        return vd;
+                    }
+                    // a clause of another property (e.g. the clock protocol): keep it, but
+                    // still apply C10's own closed-form oracle to the raw observation
+                    foreign.get_or_insert(vd);
                 }
             }
         }
@@ -679,8 +699,7 @@ impl SubCheck for C10Sub {
                 t += p;
             }
         }
-        let mut got = infos[1].fired.clone();
-        got.sort();
+        let got = raw[1].0.clone();
         expect.sort();
         if got != expect {
             return Verdict::fail(
@@ -695,9 +714,15 @@ impl SubCheck for C10Sub {
                 ),
             );
         }
-        if infos[0].final_time == end && infos[1].final_time == end {
-            let mut fa = infos[0].fired.clone();
-            fa.sort();
+        if raw[1].1 != end {
+            return Verdict::fail(
+                &["C10", "C01"],
+                "periodic-final-time",
+                format!("plan B ends with step_until(horizon) but the time is {} instead of {}", raw[1].1, end),
+            );
+        }
+        if raw[0].1 == end {
+            let fa = raw[0].0.clone();
             if fa != got {
                 return Verdict::fail(
                     &["C10", "C01"],
@@ -705,6 +730,9 @@ impl SubCheck for C10Sub {
                     format!("plan A fired {} occurrences, plan B {}", fa.len(), got.len()),
                 );
             }
+        }
+        if let Some(v) = foreign {
+            return v;
         }
         let i = &infos[1];
         let nt = i.coincident_series_instants >= 3 || i.periodic_occurrences >= 50 || i.until_on_occurrence > 0;
